@@ -14,6 +14,7 @@ import (
 	"path/filepath"
 	"regexp"
 	"sort"
+	"strconv"
 	"strings"
 	"time"
 
@@ -32,6 +33,9 @@ type ReplayFile struct {
 	Trace    []interp.Decision  `json:"decisions,omitempty"`
 	Observe  []string           `json:"observe,omitempty"`
 	Race     bool               `json:"race,omitempty"`
+	Dist     map[string]string  `json:"distribution,omitempty"` // distribution violations: outcome -> exact probability
+	Class    string             `json:"class,omitempty"`
+	NExpect  int                `json:"expected_outcomes,omitempty"`
 }
 
 type NativeResult struct {
@@ -41,6 +45,7 @@ type NativeResult struct {
 	Observe []string
 	Known   []string
 	Debug   []string
+	Dist    map[string]int
 	Raw     string
 }
 
@@ -66,7 +71,9 @@ const testDriver = `package %s
 
 import (
 	"fmt"
+	"math/rand"
 	"os"
+	"strconv"
 	"strings"
 	"testing"
 )
@@ -115,11 +122,38 @@ func sxRunOne(path string) {
 }
 
 func TestSxReplay(t *testing.T) {
+	rep, _ := strconv.Atoi(os.Getenv("SX_REPEAT"))
 	for _, p := range strings.Split(os.Getenv("SX_REPLAY"), ",") {
-		if p != "" {
-			fmt.Printf("SXBEGIN file=%%s\n", p)
-			sxRunOne(p)
+		if p == "" {
+			continue
 		}
+		fmt.Printf("SXBEGIN file=%%s\n", p)
+		if rep <= 0 {
+			sxRunOne(p)
+			continue
+		}
+		// distribution replay: run the harness under many seeds and count the outcomes
+		counts := map[string]int{}
+		for r := 0; r < rep; r++ {
+			h, err := sxLoad(p)
+			if err != nil || sxRegistry[h] == nil {
+				break
+			}
+			rand.Seed(int64(r)*7919 + 1)
+			func() {
+				defer func() { recover() }()
+				sxRegistry[h]()
+			}()
+			for _, o := range sxTrace {
+				if strings.HasPrefix(o, "outcome=") {
+					counts[o[len("outcome="):]]++
+				}
+			}
+		}
+		for k, v := range counts {
+			fmt.Printf("SXDIST %%d %%s\n", v, strings.ReplaceAll(k, "\n", "\\n"))
+		}
+		fmt.Printf("SXRESULT file=%%s status=ok label=\n", p)
 	}
 }
 `
@@ -180,6 +214,10 @@ func (nb *nativeBuilder) binary(inCmd, race bool) (string, error) {
 
 // run executes the replay files in one process and returns a result per file.
 func (nb *nativeBuilder) run(files []string, inCmd, race bool, timeout time.Duration) (map[string]*NativeResult, error) {
+	return nb.runRepeat(files, inCmd, race, timeout, 0)
+}
+
+func (nb *nativeBuilder) runRepeat(files []string, inCmd, race bool, timeout time.Duration, repeat int) (map[string]*NativeResult, error) {
 	bin, err := nb.binary(inCmd, race)
 	if err != nil {
 		return nil, err
@@ -188,7 +226,7 @@ func (nb *nativeBuilder) run(files []string, inCmd, race bool, timeout time.Dura
 	defer cancel()
 	cmd := exec.CommandContext(ctx, bin, "-test.run", "^TestSxReplay$", "-test.timeout", timeout.String(), "-test.count=1")
 	cmd.Dir = nb.dir
-	cmd.Env = append(os.Environ(), "SX_REPLAY="+strings.Join(files, ","))
+	cmd.Env = append(os.Environ(), "SX_REPLAY="+strings.Join(files, ","), "SX_REPEAT="+strconv.Itoa(repeat))
 	var buf bytes.Buffer
 	cmd.Stdout = &buf
 	cmd.Stderr = &buf
@@ -200,7 +238,7 @@ func (nb *nativeBuilder) run(files []string, inCmd, race bool, timeout time.Dura
 	for _, line := range strings.Split(out, "\n") {
 		// the code under test may write to stderr without a final newline
 		// ("...\r"): markers can start in the middle of a line
-		for _, mk := range []string{"SXBEGIN file=", "SXOBS ", "SXDBG ", "SXKNOWN ", "SXRESULT "} {
+		for _, mk := range []string{"SXBEGIN file=", "SXOBS ", "SXDBG ", "SXDIST ", "SXKNOWN ", "SXRESULT "} {
 			if i := strings.Index(line, mk); i > 0 {
 				line = line[i:]
 				break
@@ -213,6 +251,15 @@ func (nb *nativeBuilder) run(files []string, inCmd, race bool, timeout time.Dura
 			res[curFile] = cur
 		case strings.HasPrefix(line, "SXOBS ") && cur != nil:
 			cur.Observe = append(cur.Observe, strings.TrimPrefix(line, "SXOBS "))
+		case strings.HasPrefix(line, "SXDIST ") && cur != nil:
+			f := strings.SplitN(strings.TrimPrefix(line, "SXDIST "), " ", 2)
+			if len(f) == 2 {
+				if cur.Dist == nil {
+					cur.Dist = map[string]int{}
+				}
+				n, _ := strconv.Atoi(f[0])
+				cur.Dist[f[1]] = n
+			}
 		case strings.HasPrefix(line, "SXDBG ") && cur != nil:
 			cur.Debug = append(cur.Debug, strings.TrimPrefix(line, "SXDBG "))
 		case strings.HasPrefix(line, "SXKNOWN ") && cur != nil:
@@ -357,6 +404,17 @@ func cmdReplay(args []string) int {
 	}
 	defer nb.Close()
 	abs, _ := filepath.Abs(args[0])
+	if rf.Expect == "distribution" {
+		ok, detail := confirmDistribution(nb, abs, &rf)
+		fmt.Printf("exact distribution (engine): %v\n", rf.Dist)
+		fmt.Println("native:", detail)
+		if ok {
+			fmt.Printf("REPRODUCED property=%s\n", rf.Property)
+			return 1
+		}
+		fmt.Println("NOT REPRODUCED")
+		return 0
+	}
 	res, err := nb.run([]string{abs}, rf.InCmd, rf.Race, 30*time.Second)
 	if err != nil {
 		fmt.Fprintln(os.Stderr, err)
